@@ -73,9 +73,13 @@ def strategy(draw, tier="quick"):
     ncyc = draw(st.integers(6, 40 if tier == "quick" else 120))
     go_w = draw(st.sampled_from([6, 4, 7, 2]))
     en_w = draw(st.sampled_from([5, 3, 7, 1, 8]))
+    # arguments repeat often (a caller retrying the same call after it was withdrawn or refused)
+    tvs = []
+    for _ in range(ncyc):
+        tvs.append(tvs[-1 - draw(st.integers(0, min(1, len(tvs) - 1)))] if tvs and draw(st.integers(0, 2)) == 0 else draw(st.integers(0, 15)))
     mock = {
         "go": [int(draw(st.integers(0, 7)) < go_w) for _ in range(ncyc)],
-        "tv": [draw(st.integers(0, 15)) for _ in range(ncyc)],
+        "tv": tvs,
         "en": [int(draw(st.integers(0, 7)) < en_w) for _ in range(ncyc + 2)],
         "delay_ns": draw(st.sampled_from([0, 0, 1, 2])),
         "validate": draw(st.sampled_from([None, None, None, 0, 5, 15])),  # argument value that does not validate
